@@ -204,9 +204,9 @@ def r2(ctx):
         return t.data[(f * t.shape[1] + a_) * 3 + k]
     # an explicit index array that lists every atom (in order, permuted) is a copy, not a view, of self.xyz: both arrays must then be centred
     configs = [(None, None, False, 1), (None, None, True, 1), ([1, 3], None, False, 1), ([1, 3], None, True, 1), ([1, 3], [0, 2], False, 0),
-               ([0, 1, 2, 3], None, False, 1), ([3, 1, 2, 0], None, True, 1)]
+               ([0, 1, 2, 3], None, False, 1), ([3, 1, 2, 0], None, True, 1), ([1, 3], [0, 2], True, 1)]
     if ctx.tier == "thorough":
-        configs += [([1, 3], [0, 2], True, 1), ([0], None, True, 0), ([0, 1, 2, 3], [3, 2, 1, 0], False, 1), (None, None, True, 0)]
+        configs += [([0], None, True, 0), ([0, 1, 2, 3], [3, 2, 1, 0], False, 1), (None, None, True, 0)]
     for atom_indices, ref_idx, ref_is_self, frame in configs:
         for _once in (0,):
             cfg_ = "atoms %s%s, reference %s, frame %d" % ("all" if atom_indices is None else atom_indices, "" if ref_idx is None else " onto reference atoms %s" % ref_idx,
